@@ -24,6 +24,21 @@ theorem quotable_unquote (v : Str) : Quotable (unquote v) := by
     · exact quotable_filter _
   · exact quotable_filter _
 
+theorem quotable_mapUnquote (o : Option Str) (x : Str) (h : o.map unquote = some x) : Quotable x := by
+  cases o with
+  | none => cases h
+  | some v => simp only [Option.map_some, Option.some.injEq] at h; subst h; exact quotable_unquote v
+
+theorem optParse_some {α} (f : Str → Res α) (o : Option Str) (x : α) (h : optParse f o = some x) : ∃ v, o = some v ∧ f v = .ok x := by
+  cases o with
+  | none => cases h
+  | some v =>
+    simp only [optParse, Option.bind_some] at h
+    cases hf : f v with
+    | ok y => rw [hf] at h; simp only [Res.toOption, Option.some.injEq] at h; subst h; exact ⟨v, rfl, hf⟩
+    | err => rw [hf] at h; cases h
+    | panic => rw [hf] at h; cases h
+
 theorem lastValQ_sat (k : Str) (q : Str → Bool) (ps : List (Str × Str)) (v : Str) (h : lastValQ k q ps = some v) : q v = true := by
   induction ps using snoc_induction with
   | hnil => cases h
@@ -330,6 +345,7 @@ def LineWF : Line → Prop
   | .targetDuration n => n % nanosPerSec = 0 ∧ n / nanosPerSec < 2 ^ 64
   | .mediaSequence n => n < 2 ^ 64
   | .discontinuitySequence n => n < 2 ^ 64
+  | .dateRange d => DateRangePre d
   | _ => True
 
 theorem byteRange_parse_wf (s : Str) (r : ByteRange) (h : ByteRange.parse s = .ok r) : r.WF := by
@@ -453,6 +469,151 @@ end Hls
 
 namespace Hls
 
+/-! ## EXT-X-DATERANGE -/
+
+theorem mem_btreeInsert (k : Str) (v : Value) (l : List (Str × Value)) (e : Str × Value) (h : e ∈ btreeInsert k v l) :
+    e = (k, v) ∨ e ∈ l := by
+  induction l with
+  | nil => simp only [btreeInsert, List.mem_singleton] at h; exact .inl h
+  | cons x rest ih =>
+    obtain ⟨k', v'⟩ := x
+    simp only [btreeInsert] at h
+    split at h
+    · rcases List.mem_cons.mp h with h | h
+      · exact .inl h
+      · exact .inr h
+    · rcases List.mem_cons.mp h with h | h
+      · exact .inl h
+      · exact .inr (List.mem_cons_of_mem _ h)
+    · rcases List.mem_cons.mp h with h | h
+      · exact .inr (by rw [h]; simp)
+      · rcases ih h with h | h
+        · exact .inl h
+        · exact .inr (List.mem_cons_of_mem _ h)
+
+theorem btreeInsert_keysLt (k : Str) (v : Value) (l : List (Str × Value)) (h : KeysLt l) : KeysLt (btreeInsert k v l) := by
+  have L := cmpStr_lawful
+  induction l with
+  | nil => simp [btreeInsert, KeysLt]
+  | cons x rest ih =>
+    obtain ⟨k', v'⟩ := x
+    have hp := List.pairwise_cons.mp h
+    simp only [btreeInsert]
+    split
+    · rename_i hlt
+      apply List.pairwise_cons.mpr
+      refine ⟨?_, h⟩
+      intro e he
+      rcases List.mem_cons.mp he with rfl | he
+      · exact hlt
+      · exact L.trans_lt _ _ _ hlt (hp.1 e he)
+    · rename_i heq
+      have : k = k' := (L.eq_iff _ _).mp heq
+      subst this
+      exact List.pairwise_cons.mpr ⟨hp.1, hp.2⟩
+    · rename_i hgt
+      have hlt : cmpStr k' k = .lt := (L.gt_iff k k').mp hgt
+      apply List.pairwise_cons.mpr
+      refine ⟨?_, ih hp.2⟩
+      intro e he
+      rcases mem_btreeInsert k v rest e he with rfl | he
+      · exact hlt
+      · exact hp.1 e he
+
+/-- what the client-attribute loop keeps true -/
+def ClientInv (m : List (Str × Value)) : Prop :=
+  KeysLt m ∧ ∀ e ∈ m, ClientKeyOK e.1 ∧ ClientValPre e.2
+
+theorem value_parse_pre (s : Str) (v : Value) (h : Value.parse s = .ok v) : ClientValPre v := by
+  simp only [Value.parse] at h
+  split at h
+  · split at h
+    · rename_i bs hb
+      simp only [Res.ok.injEq] at h; subst h
+      exact (hexDecode_spec _ bs hb).2
+    · cases h
+  · split at h
+    · simp only [Res.ok.injEq] at h; subst h; trivial
+    · simp only [Res.ok.injEq] at h; subst h; exact quotable_unquote s
+
+theorem client_fold_inv (ps : List (Str × Str)) (m : List (Str × Value)) (hm : ClientInv m)
+    (hb : ps.any ExtXDateRange.bad = false) : ClientInv (ps.foldl clientStep m) := by
+  induction ps generalizing m with
+  | nil => exact hm
+  | cons kv rest ih =>
+    simp only [List.any_cons, Bool.or_eq_false_iff] at hb
+    simp only [List.foldl_cons]
+    apply ih _ _ hb.2
+    obtain ⟨k, v⟩ := kv
+    unfold clientStep
+    split
+    · rename_i hx
+      have hbad := hb.1
+      simp only [ExtXDateRange.bad, Bool.or_eq_false_iff, Bool.and_eq_false_iff] at hbad
+      have h4 := hbad.2
+      simp only at hx
+      rcases h4 with h4 | h4
+      · rw [hx] at h4; cases h4
+      · simp only [Bool.or_eq_false_iff, Bool.not_eq_false'] at h4
+        cases hp : Value.parse v with
+        | ok val =>
+          simp only
+          refine ⟨btreeInsert_keysLt k val m hm.1, ?_⟩
+          intro e he
+          rcases mem_btreeInsert k val m e he with rfl | he
+          · exact ⟨⟨hx, h4.1⟩, value_parse_pre v val hp⟩
+          · exact hm.2 e he
+        | err => exact hm
+        | panic => exact hm
+    · exact hm
+
+theorem dateRange_parse_pre (s : Str) (t : ExtXDateRange) (h : ExtXDateRange.parse s = .ok t) : DateRangePre t := by
+  simp only [ExtXDateRange.parse] at h
+  cases hs : stripTag s pfxDateRange with
+  | ok r =>
+    rw [hs] at h
+    simp only [Res.bind_ok, ExtXDateRange.fold_closed] at h
+    cases hc : ExtXDateRange.closed (attrPairs r) with
+    | ok a =>
+      rw [hc] at h
+      simp only [Res.bind_ok, ExtXDateRange.finish] at h
+      simp only [ExtXDateRange.closed] at hc
+      split at hc
+      · cases hc
+      · rename_i hnb
+        simp only [Res.ok.injEq] at hc; subst hc
+        have hinv := client_fold_inv (attrPairs r) [] ⟨by simp [KeysLt], fun e he => by cases he⟩ (by simpa using hnb)
+        split at h
+        · cases h
+        · rename_i id hid
+          split at h
+          · cases h
+          · split at h
+            · cases h
+            · split at h
+              · cases h
+              · rename_i n1 n2 n3
+                simp only [Res.ok.injEq] at h; subst h
+                refine ⟨quotable_mapUnquote _ _ hid, fun x e => quotable_mapUnquote _ x e, fun x e => quotable_mapUnquote _ x e,
+                  fun x e => quotable_mapUnquote _ x e, fun e he => (hinv.2 e he).1, fun e he => (hinv.2 e he).2, hinv.1, ?_⟩
+                intro heon
+                simp only at heon n1 n2 n3
+                simp only [heon, Bool.true_and, Bool.not_eq_true] at n1 n2 n3
+                refine ⟨?_, ?_, ?_⟩
+                · cases hcl : Option.map unquote (lastVal "CLASS".toList (attrPairs r)) with
+                  | none => rw [hcl] at n1; simp at n1
+                  | some x => rfl
+                · cases hd : optParse parseSecs (lastVal "DURATION".toList (attrPairs r)) with
+                  | none => rfl
+                  | some x => rw [hd] at n2; simp at n2
+                · cases hd : Option.map unquote (lastVal "END-DATE".toList (attrPairs r)) with
+                  | none => rfl
+                  | some x => rw [hd] at n3; simp at n3
+    | err => rw [hc] at h; cases h
+    | panic => rw [hc] at h; cases h
+  | err => rw [hs] at h; cases h
+  | panic => rw [hs] at h; cases h
+
 theorem arm_map {α} (parse : Str → Res α) (ctor : α → Line)
     (h : ∀ s a, parse s = .ok a → RawOK s → LineWF (ctor a)) :
     ∀ s x, (parse s).map ctor = .ok x → RawOK s → LineWF x := by
@@ -473,7 +634,7 @@ theorem classify1_lineWF (l : Str) (x : Line) (hl : RawOK l) (h : classify1 l = 
   simp only [tagParsers, C05.AllArms]
   refine ⟨arm_map _ _ (fun _ _ _ _ => trivial), arm_map _ _ ?inf, arm_map _ _ ?br, arm_map _ _ ?ds,
     arm_map _ _ (fun _ _ _ _ => trivial), arm_map _ _ ?key, arm_map _ _ ?map, arm_map _ _ ?pdt, arm_map _ _ ?td,
-    arm_map _ _ (fun _ _ _ _ => trivial), arm_map _ _ ?ms, arm_map _ _ (fun _ _ _ _ => trivial),
+    arm_map _ _ ?dr, arm_map _ _ ?ms, arm_map _ _ (fun _ _ _ _ => trivial),
     arm_map _ _ (fun _ _ _ _ => trivial), arm_map _ _ (fun _ _ _ _ => trivial), arm_map _ _ (fun _ _ _ _ => trivial),
     arm_map _ _ (fun _ _ _ _ => trivial), arm_map _ _ (fun _ _ _ _ => trivial), arm_map _ _ (fun _ _ _ _ => trivial),
     arm_map _ _ (fun _ _ _ _ => trivial), arm_map _ _ (fun _ _ _ _ => trivial), trivial⟩
@@ -519,6 +680,7 @@ theorem classify1_lineWF (l : Str) (x : Line) (hl : RawOK l) (h : classify1 l = 
     | err => rw [hst] at h; cases h
     | panic => rw [hst] at h; cases h
   case ms => intro s a h hs; exact nat_tag_lt pfxMediaSequence s a h
+  case dr => intro s a h _; exact dateRange_parse_pre s a h
 
 end Hls
 
